@@ -29,6 +29,7 @@ fn mut_kind(m: &Mut) -> &'static str {
 
 /// which part of a protected packet a byte offset lies in (for the evidence counters)
 fn region(is_rtcp: bool, prof: &str, hdr_len: usize, len: usize, off: usize) -> &'static str {
+    if len < 24 { return "short-or-empty"; }
     if is_rtcp {
         let t = rtcp_tag_len(prof);
         if off < 8 { "rtcp-header" }
@@ -419,14 +420,19 @@ fn cross_and_padding(run: &mut Run, rng: &mut Rng, prof: &str, i: usize) {
 /// (refused: table full) must leave both receivers exactly as they were; known streams go on.
 fn at_the_cap(run: &mut Run, rng: &mut Rng, prof: &str, i: usize) {
     let mut ops = new_three(rng, i, prof);
+    // session 3: a second sender with the sender's keys — session 0's own transmit table is full after the
+    // 1024 fill streams (`MAX_TX_CONTEXTS`), the NEW streams aimed at the receivers' cap come from here
+    const S2: usize = 3;
+    let second = ops[0].clone();
+    ops.push(second);
     ops.push(Op::Fill(S, A, 0x5000, 1024));
     ops.push(Op::Fill(S, B, 0x5000, 1024));
     let mut slot = 0;
     // a known stream, a new stream (authentic, refused), forged variants of both
     ops.push(Op::ProtectRtp(S, PktSpec::simple(2, 0x5000, vec![7, 7]))); both(&mut ops, false, slot); let known = slot; slot += 1;
-    ops.push(Op::ProtectRtp(S, PktSpec::simple(1, 0x9999, vec![8, 8]))); both(&mut ops, false, slot); let fresh = slot; slot += 1;
+    ops.push(Op::ProtectRtp(S2, PktSpec::simple(1, 0x9999, vec![8, 8]))); both(&mut ops, false, slot); let fresh = slot; slot += 1;
     for n in 0..6u32 { forged(&mut ops, false, fresh, Mut::Ssrc(0x7000_0000 + n)); forged(&mut ops, false, known, Mut::Flip(100 + n as usize)); }
-    ops.push(Op::ProtectRtcp(S, Src::Lit(rtcp_packet(rng, 0x9998, 12)))); both(&mut ops, true, slot); let rtcp_new = slot; slot += 1;
+    ops.push(Op::ProtectRtcp(S2, Src::Lit(rtcp_packet(rng, 0x9998, 12)))); both(&mut ops, true, slot); let rtcp_new = slot; slot += 1;
     for n in 0..4u32 { forged(&mut ops, true, rtcp_new, Mut::RtcpSsrc(0x7100_0000 + n)); forged(&mut ops, true, rtcp_new, Mut::Flip(66 + n as usize)); }
     ops.push(Op::ProtectRtp(S, PktSpec::simple(3, 0x5000, vec![9]))); both(&mut ops, false, slot);
     emit(run, "forge", &Case { ops, kind: "at-the-context-cap" });
